@@ -553,6 +553,28 @@ func c11HTTP(c *fw.Ctx) {
 				}
 			}
 		}
+		if !canW(ch) && canR(ch) {
+			// 1c. the same write while the application has a read callback installed whose answer differs from what is
+			// stored: the refused write must not pull the callback's value in (nor anything else)
+			c.Eval(1)
+			other, _ := change(ch, i+3)
+			before, r0, l0 := ch.Value, remote[ch], local[ch]
+			if !reflect.DeepEqual(other, before) {
+				ch.OnValueGet(func() interface{} { return other })
+				_, _, err := put(fmt.Sprintf(`{"characteristics":[{%s,"value":%s}]}`, id, js))
+				ch.OnValueGet(nil)
+				if err != nil {
+					c.Infra("PUT failed: " + err.Error())
+					return
+				}
+				if !reflect.DeepEqual(ch.Value, before) {
+					c.Report("http-write-without-pw-changed-value/read-callback/"+ch.Format, fmt.Sprintf("%s %s: a PUT (refused: no write permission) while a read callback is installed changed the value from %v to %v", e.name, pk, before, ch.Value), cas)
+				}
+				if remote[ch] != r0 || local[ch] != l0 {
+					c.Report("http-write-without-pw-invoked-callback/read-callback/"+ch.Format, fmt.Sprintf("%s %s: a PUT (refused: no write permission) while a read callback is installed invoked application callbacks", e.name, pk), cas)
+				}
+			}
+		}
 		// 2. read
 		c.Eval(1)
 		m, _, err = k.Do("GET", fmt.Sprintf("/characteristics?id=%d.%d", e.acc.ID, ch.ID), "", nil)
@@ -577,6 +599,35 @@ func c11HTTP(c *fw.Ctx) {
 			calls := 0
 			ch.OnValueGet(func() interface{} { calls++; return secret })
 			m, _, err = k.Do("GET", fmt.Sprintf("/characteristics?id=%d.%d", e.acc.ID, ch.ID), "", nil)
+			// … nor appear in the attribute database while the callback is installed
+			if j, jerr := json.Marshal(ch); jerr == nil && bytes.Contains(j, []byte(`"value"`)) && !c11Narrowed[ch] {
+				c.Report("value-revealed-without-pr/read-callback/encoded/"+ch.Format, fmt.Sprintf("%s %s: while a read callback is installed the encoded characteristic carries a value", e.name, pk), cas)
+			}
+			if !c11Narrowed[ch] {
+				if ma, _, aerr := k.Do("GET", "/accessories", "", nil); aerr == nil {
+					var db struct {
+						Accessories []struct {
+							Aid      uint64 `json:"aid"`
+							Services []struct {
+								Characteristics []map[string]interface{} `json:"characteristics"`
+							} `json:"services"`
+						} `json:"accessories"`
+					}
+					if json.Unmarshal(ma.Body, &db) == nil {
+						for _, a := range db.Accessories {
+							for _, sv := range a.Services {
+								for _, cj := range sv.Characteristics {
+									if iid, _ := cj["iid"].(float64); a.Aid == e.acc.ID && uint64(iid) == ch.ID {
+										if _, has := cj["value"]; has {
+											c.Report("http-value-revealed-without-pr/read-callback/accessories/"+ch.Format, fmt.Sprintf("%s %s: while a read callback is installed GET /accessories shows a value", e.name, pk), cas)
+										}
+									}
+								}
+							}
+						}
+					}
+				}
+			}
 			ch.OnValueGet(nil)
 			if err != nil {
 				c.Infra("GET failed: " + err.Error())
@@ -750,7 +801,7 @@ func init() {
 	fw.Register(&fw.Check{
 		ID:    "C11",
 		Level: "exploration",
-		Rule:  "every characteristic constructor found in /repo with its own permissions plus the five generic constructors under all 8 subsets of {pr,pw,ev}. In-process: every subject × ≈40 JSON-like values through UpdateValueFromConnection, alone and after each of five first events that change nothing (local update with the same value, ignored local updates, a remote read with and without a read callback, a remote write of the current value), (and UpdateValue for write-only ones): without pw value and all callback counters unchanged — also for remote writes that arrive while the application's callbacks of a local update are running; without pr no value stored or encoded. HTTP (real transport, verified controller): per characteristic a changing valid PUT, a GET, ev=true, value+ev in one entry, then a local and a remote change followed by a barrier request: without pw nothing changes and no callback fires (also for 11 other JSON spellings of a value: numbers for booleans, strings for numbers, …); without pr no value is stored or revealed (also while the application has a read callback installed, and for library characteristics whose permissions the application narrowed to write-only after they had a value: GET /characteristics is refused by permission, not by absence of a value); without ev the subscription entry is answered with a non-zero status (also for non-boolean spellings of the flag) and no EVENT follows; an EVENT for an observable characteristic without pr carries no value. distinct_nontrivial = distinct (path, format, permission set) classes The permissions a subject is DECLARED to have are taken from gen/metadata.json (by type id), not from the object; subjects whose permission sets come from the exported helpers (PermsAll/Read/ReadOnly/WriteOnly) are built while other code extends and edits the helpers' results; a rejected subscription inside requests with entries that succeed (before / after it) still carries its status. Plus, in a subprocess built with a scheduling point before EVERY statement of hc's packages (textual insertion through go build -overlay): every interleaving with at most 1 (thorough 2) preemptions of pairs of operations on disjoint objects — and, where the property is about served requests, of pairs of handlers on two verified connections of one accessory touching different characteristics — each side must observe exactly what it observes when the two run one after the other (module-level mutable state is what makes them differ).",
+		Rule:  "every characteristic constructor found in /repo with its own permissions plus the five generic constructors under all 8 subsets of {pr,pw,ev}. In-process: every subject × ≈40 JSON-like values through UpdateValueFromConnection, alone and after each of five first events that change nothing (local update with the same value, ignored local updates, a remote read with and without a read callback, a remote write of the current value), (and UpdateValue for write-only ones): without pw value and all callback counters unchanged — also for remote writes that arrive while the application's callbacks of a local update are running; without pr no value stored or encoded. HTTP (real transport, verified controller): per characteristic a changing valid PUT, a GET, ev=true, value+ev in one entry, then a local and a remote change followed by a barrier request: without pw nothing changes and no callback fires (also for 11 other JSON spellings of a value: numbers for booleans, strings for numbers, …); without pr no value is stored or revealed (also while the application has a read callback installed — then the encoded characteristic and /accessories show no value either, and a refused write does not pull the callback's answer in — and for library characteristics whose permissions the application narrowed to write-only after they had a value: GET /characteristics is refused by permission, not by absence of a value); without ev the subscription entry is answered with a non-zero status (also for non-boolean spellings of the flag) and no EVENT follows; an EVENT for an observable characteristic without pr carries no value. distinct_nontrivial = distinct (path, format, permission set) classes The permissions a subject is DECLARED to have are taken from gen/metadata.json (by type id), not from the object; subjects whose permission sets come from the exported helpers (PermsAll/Read/ReadOnly/WriteOnly) are built while other code extends and edits the helpers' results; a rejected subscription inside requests with entries that succeed (before / after it) still carries its status. Plus, in a subprocess built with a scheduling point before EVERY statement of hc's packages (textual insertion through go build -overlay): every interleaving with at most 1 (thorough 2) preemptions of pairs of operations on disjoint objects — and, where the property is about served requests, of pairs of handlers on two verified connections of one accessory touching different characteristics — each side must observe exactly what it observes when the two run one after the other (module-level mutable state is what makes them differ).",
 		Run:   c11Run,
 		Replay: func(c *fw.Ctx, raw json.RawMessage) {
 			var cas c11Case
